@@ -185,6 +185,21 @@ def describe(s: Any) -> list[dict]:
     return out
 
 
+def describe_tree(s: Any) -> dict:
+    """The storage as the tree it is (nested Multi storages stay nested): what the driver gets."""
+    subs = getattr(s, "storages", None)
+    if subs is not None:
+        return {"t": "multi", "children": [describe_tree(c) for c in subs]}
+    return describe(s)[0]
+
+
+def ddescribe_tree(s: Any) -> dict:
+    subs = getattr(s, "storages", None)
+    if subs is not None:
+        return {"t": "multi", "children": [ddescribe_tree(c) for c in subs]}
+    return ddescribe(s)[0]
+
+
 def ddescribe(s: Any) -> list[dict]:
     _, _, diffbase, _, _ = _kopf()
     out = []
@@ -516,7 +531,18 @@ def gen_storage_spec(rng) -> tuple[dict, str]:
         return {"cls": "multi", "children": [ann(), status()]}, shape
     if shape == "multi-sa":
         return {"cls": "multi", "children": [status(), ann()]}, shape
-    return {"cls": "multi", "children": [{"cls": "multi", "children": [ann()]}, smart_other(rng)]}, shape
+    v = rng.random()
+    if v < 0.35:
+        return {"cls": "multi", "children": [{"cls": "multi", "children": [ann()]}, smart_other(rng)]}, shape
+    if v < 0.60:
+        a = ann()
+        return {"cls": "multi", "children": [{"cls": "multi", "children": [status()]},
+                                             {"cls": "multi", "children": [a, {"cls": "multi", "children": [smart_other(rng)]}]}]}, shape
+    if v < 0.80:
+        return {"cls": "multi", "children": [{"cls": "multi", "children": []}, {"cls": "multi", "children": [ann(), status()]}]}, shape
+    if v < 0.90:
+        return {"cls": "multi", "children": [{"cls": "multi", "children": [{"cls": "multi", "children": [smart()]}]}]}, shape
+    return {"cls": "multi", "children": []}, shape
 
 
 def smart_other(rng) -> dict:
@@ -544,7 +570,10 @@ def gen_dstorage_spec(rng, prefix: str) -> dict:
         return ann()
     if r < 0.75:
         return status()
-    return {"cls": "multi", "children": [ann(), status()]}
+    if r < 0.90:
+        return {"cls": "multi", "children": [ann(), status()]}
+    return {"cls": "multi", "children": [{"cls": "multi", "children": [status()]}, {"cls": "multi", "children": []},
+                                         {"cls": "multi", "children": [ann()]}]}
 
 
 def gen_value(rng, depth=0) -> Any:
@@ -738,6 +767,7 @@ def run_scenario(sc: dict, out: Out, with_driver: bool = True) -> None:
     conventions, progress, diffbase, bodies, patches = _kopf()
     S = build_storage(sc["storage"])
     desc = describe(S)
+    tdesc = describe_tree(S)
     k: str = sc["id"]
     base: dict = copy.deepcopy(sc["body"])
     Body = bodies.Body
@@ -846,14 +876,14 @@ def run_scenario(sc: dict, out: Out, with_driver: bool = True) -> None:
     r = call(S.store, key=k, record=copy.deepcopy(rec), body=Body(body0), patch=p)
     p1 = jsonable(dict(p)) if r[0] == "ok" else None
     if with_driver:
-        out.ask("store", ["C16.store", desc, sfx_table([k]), body0, patch0, k, sc["record"]], ["ok", p1] if r[0] == "ok" else r)
+        out.ask("store", ["C16.store", tdesc, sfx_table([k]), body0, patch0, k, sc["record"]], ["ok", p1] if r[0] == "ok" else r)
     writes = any(d["t"] == "ann" or not d["nowrite"] for d in desc)
     # (a patch corrupted by the scenario is not applied: it would corrupt metadata itself)
     body1 = merge_patch(body0, p1) if (p1 is not None and not (corrupt or "").startswith("patch-")) else body0
     f1 = call(S.fetch, key=k, body=Body(body1))
     if with_driver:
-        out.ask("fetch", ["C16.fetch", desc, sfx_table([k]), body1, k], jsonable(f1))
-        out.ask("fetch-before", ["C16.fetch", desc, sfx_table([k]), body0, k], jsonable(call(S.fetch, key=k, body=Body(body0))))
+        out.ask("fetch", ["C16.fetch", tdesc, sfx_table([k]), body1, k], jsonable(f1))
+        out.ask("fetch-before", ["C16.fetch", tdesc, sfx_table([k]), body0, k], jsonable(call(S.fetch, key=k, body=Body(body0))))
     if judge and r[0] == "ok" and writes:
         want = drop_nulls(rec)
         got = f1[1] if f1[0] == "ok" else f1
@@ -872,17 +902,17 @@ def run_scenario(sc: dict, out: Out, with_driver: bool = True) -> None:
     r2 = call(S.purge, key=k, body=Body(body1), patch=p)
     p2 = jsonable(dict(p)) if r2[0] == "ok" else None
     if with_driver:
-        out.ask("purge", ["C16.purge", desc, sfx_table([k]), body1, {}, k], ["ok", p2] if r2[0] == "ok" else r2)
+        out.ask("purge", ["C16.purge", tdesc, sfx_table([k]), body1, {}, k], ["ok", p2] if r2[0] == "ok" else r2)
     body2 = merge_patch(body1, p2) if p2 is not None else body1
     f2 = call(S.fetch, key=k, body=Body(body2))
     if with_driver:
-        out.ask("fetch-after-purge", ["C16.fetch", desc, sfx_table([k]), body2, k], jsonable(f2))
+        out.ask("fetch-after-purge", ["C16.fetch", tdesc, sfx_table([k]), body2, k], jsonable(f2))
     # purge in the same patch as the store (nothing of k may remain in it that the body does not need)
     p = new_patch(p1 if p1 is not None else patch0)
     r3 = call(S.purge, key=k, body=Body(body0), patch=p)
     p3 = jsonable(dict(p)) if r3[0] == "ok" else None
     if with_driver:
-        out.ask("purge-same-patch", ["C16.purge", desc, sfx_table([k]), body0, p1 if p1 is not None else patch0, k],
+        out.ask("purge-same-patch", ["C16.purge", tdesc, sfx_table([k]), body0, p1 if p1 is not None else patch0, k],
                 ["ok", p3] if r3[0] == "ok" else r3)
     if judge and r2[0] == "ok":
         if f2 != ["ok", None]:
@@ -923,7 +953,7 @@ def run_scenario(sc: dict, out: Out, with_driver: bool = True) -> None:
     p4 = jsonable(dict(p)) if r4[0] == "ok" else None
     tkeys = [l.touch_key for l in ann_leaves]
     if with_driver:
-        out.ask("touch", ["C16.touch", desc, sfx_table(tkeys), body1, patch0 if corrupt else {}, tv], ["ok", p4] if r4[0] == "ok" else r4)
+        out.ask("touch", ["C16.touch", tdesc, sfx_table(tkeys), body1, patch0 if corrupt else {}, tv], ["ok", p4] if r4[0] == "ok" else r4)
     if judge and r4[0] == "ok":
         body4 = merge_patch(body1, p4)
         check_foreign(out, "touch", body1, body4, prefixes, status_leaves, touch=True)
@@ -944,7 +974,7 @@ def run_scenario(sc: dict, out: Out, with_driver: bool = True) -> None:
     snapshot = copy.deepcopy(essence_in)
     r5 = call(S.clear, essence=essence_in)
     if with_driver:
-        out.ask("clear", ["C16.clear", desc, body1], jsonable(r5))
+        out.ask("clear", ["C16.clear", tdesc, body1], jsonable(r5))
     if judge and r5[0] == "ok":
         cleared = r5[1]
         if essence_in != snapshot:
@@ -966,7 +996,7 @@ def run_scenario(sc: dict, out: Out, with_driver: bool = True) -> None:
                      {"site": "clear", "shape": "foreign stanza changed"})
     # ---- F. diff-base storage -----------------------------------------------------------------------
     D = build_dstorage(sc["dstorage"])
-    ddesc = ddescribe(D)
+    ddesc = ddescribe_tree(D)
     essence = sc["essence"]
     dann = [l for l in leaves(D) if isinstance(l, diffbase.AnnotationsDiffBaseStorage)]
     dkeys = [l.key for l in dann]
@@ -1212,13 +1242,13 @@ def process(scs: list[dict], with_driver: bool) -> dict:
             metas.append((i, what, im))
     if with_driver and reqs:
         try:
-            answers = leanio.Driver().ask(reqs, timeout=3000)
+            answers = leanio.Driver([ID]).ask(reqs, timeout=3000)
         except leanio.LeanError:
             # other checks build in the same tree concurrently: make sure the driver modules are
             # built (under the lake lock) and ask once more before calling it a failure
-            leanio.lake_build(["Kopf.Drv.All"])
+            leanio.lake_build(leanio.Driver([ID]).build_targets())
             try:
-                answers = leanio.Driver().ask(reqs, timeout=3000)
+                answers = leanio.Driver([ID]).ask(reqs, timeout=3000)
             except leanio.LeanError as e:
                 res["driver_error"] = {"msg": str(e), "log": e.log[-2000:]}
                 return res
